@@ -46,7 +46,7 @@ pub fn details<const M: usize>() {
             vassert!(d.align >= ea, "NEVER: [C04] chunk alignment below max(16, MIN_ALIGN, request)");
             vassert!(d.new_size_without_footer >= layout.size(), "NEVER: [C01,C19] usable size below the request");
             vassert!(d.new_size_without_footer >= ((layout.size() + (d.align - 1)) & !(d.align - 1)),
-                    "NEVER: [C01] usable size below the request rounded to the chunk alignment");
+                    "NEVER: [C01,C09] usable size below the request rounded to the chunk alignment (the freshly acquired chunk could not serve the request)");
             vassert!(d.new_size_without_footer & 15 == 0, "NEVER: [C04] usable size not a multiple of 16 (footer would be misaligned)");
             vassert!(d.size == d.new_size_without_footer + FOOTER_SIZE, "NEVER: [C08,C19] total size is not usable + footer");
             vassert!(d.size > d.new_size_without_footer, "NEVER: [C19] total size wrapped");
